@@ -2,7 +2,7 @@
    document: duplicate keys are an error for struct fields and last-wins for maps, as in serde), hence -- with the
    round-trip theorem -- re-serialising and re-reading ANY accepted document is stable. *)
 From Coq Require Import List NArith ZArith Bool Lia.
-From PV Require Import Lib.ListX Model.Json Model.Serde Model.SerdeDoc Proofs.SerdeCodecProofs Proofs.SerdeProofs.
+From PV Require Import Lib.ListX Model.Json Model.VersionReq Model.Serde Model.SerdeDoc Proofs.SerdeCodecProofs Proofs.VersionReqProofs Proofs.SerdeProofs.
 Import ListNotations.
 
 Lemma jnodup_arr_eq l : jnodup (JArr l) = forallb jnodup l.
@@ -129,7 +129,8 @@ Section DeWt.
       injection H as <-. destruct (span_de_bounds _ _ _ _ Es) as [H1 [H2 H3]].
       split; [constructor; assumption | reflexivity].
     - destruct (ident_de j) as [[p n]|]; [|discriminate]. injection H as <-. split; [constructor | reflexivity].
-    - destruct j; try discriminate. injection H as <-. split; [constructor | reflexivity].
+    - destruct j; try discriminate. destruct (vreq_normalise s) as [n|] eqn:En; cbn [option_map] in H; [|discriminate].
+      injection H as <-. split; [constructor; eapply vreq_normalise_normal; exact En | reflexivity].
   Qed.
 
   Section Body.
